@@ -14,6 +14,7 @@ EXPLANATION = ('Props/C04.lean: keypair_is_spec_function - the keys keypair retu
 ASSUMPTIONS = ["kat/mldsa_keygen_openssl.json was produced once by OpenSSL 3.5.5 (node 22) — provenance in the file",
                "kat/dilithium_repo_kats.json are the NIST round-3.1 vectors embedded in the repo's tests"]
 
+TWINS = []
 _K = None
 def kats():
     global _K
@@ -31,6 +32,7 @@ def kats():
 
 def requests(tier, rng):
     L = []
+    del TWINS[:]
     n_rand = 4 if tier == "quick" else 60
     for (s, seed) in kats():
         L.append("sign::%s::keypair %s -" % (s, seed))
@@ -56,6 +58,12 @@ def requests(tier, rng):
         L.append("sign::%s::keypair none %s" % (s, tape))
         L.append("%s::Keypair::generate none %s" % (API[s], tape))
         L.append("sign::%s::keypair %s -" % (s, tape[:64]))          # same seed, seeded: must give the same keys
+        # caller's buffers longer than the standard sizes (the raw entry points take slices): the leading standard-size
+        # parts must be the same keys
+        for extra in (1, 33, 64):
+            L.append("@impl sign::%s::keypair_cap %d %s -" % (s, extra, seeds[-1]))
+            TWINS.append(("@impl sign::%s::keypair_cap %d %s -" % (s, extra, seeds[-1]), "sign::%s::keypair %s -" % (s, seeds[-1]),
+                          "key generation into pk / sk buffers %d bytes longer than the standard sizes must write the same keys" % extra))
         # wrong seed lengths are refused (panic), not padded or truncated
         for bad in ("00" * 31, "00" * 33, "-"):
             L.append("sign::%s::keypair %s -" % (s, bad))
